@@ -6,6 +6,7 @@ import (
 	"sort"
 	"strings"
 	"sync"
+	"sync/atomic"
 
 	"github.com/resgateio/resgate/server/mq"
 )
@@ -28,6 +29,12 @@ type MockMQ struct {
 
 	tasks chan func()
 	quit  chan struct{}
+
+	// holdCh, while set, makes SendRequest return only after Release: the
+	// request is registered and logged, the caller stays inside the call (a
+	// messaging client whose publish blocks on a full buffer)
+	holdCh chan struct{}
+	heldN  int32
 
 	// Limits mirroring the adapter's guards (parameters of the mock, not oracles).
 	MaxReqSubject int // len(subj)+29 > 4096 => too long
@@ -196,8 +203,37 @@ func (m *MockMQ) SendRequest(subj string, payload []byte, cb mq.Response) {
 	at := m.w.logMQ(LogEntry{Kind: "mq_req", Subject: subj, Payload: pr.Payload, CID: pr.CID, Query: pr.Query, Req: pr.Seq})
 	pr.At = at
 	pr.Step = m.w.step
+	h := m.holdCh
+	m.mu.Unlock()
+	if h != nil {
+		atomic.AddInt32(&m.heldN, 1)
+		<-h
+		atomic.AddInt32(&m.heldN, -1)
+	}
+}
+
+// Hold makes the following SendRequest calls block (after they have been
+// registered) until Release.
+func (m *MockMQ) Hold() {
+	m.mu.Lock()
+	if m.holdCh == nil {
+		m.holdCh = make(chan struct{})
+	}
 	m.mu.Unlock()
 }
+
+// Release ends a Hold.
+func (m *MockMQ) Release() {
+	m.mu.Lock()
+	if m.holdCh != nil {
+		close(m.holdCh)
+		m.holdCh = nil
+	}
+	m.mu.Unlock()
+}
+
+// Held is the number of callers currently blocked inside SendRequest.
+func (m *MockMQ) Held() int { return int(atomic.LoadInt32(&m.heldN)) }
 
 // Subscribe implements mq.Client.
 func (m *MockMQ) Subscribe(ns string, cb mq.Response) (mq.Unsubscriber, error) {
